@@ -561,8 +561,13 @@ class FormulTranslator:
         if lb[0] != 'expr = sscct[name].v / elt.cpt.L' or lb[2] != 'x0 = elt.cpt.i0':
             self.fail(lp.body[1], 'unexpected inductor state equations')
         res['L_var'] = {'var = -sscct[name].isc': '(fopp 1)', 'var = sscct[name].isc': '1'}.get(lb[1])
-        if cb[0] != 'expr = current_sign(sscct[name].i / elt.cpt.C, True)' or cb[2] != 'x0 = elt.cpt.v0':
+        flag = {'expr = current_sign(sscct[name].i / elt.cpt.C, True)': 'true',
+                'expr = current_sign(sscct[name].i / elt.cpt.C, False)': 'false'}.get(cb[0])
+        if flag is None or cb[2] != 'x0 = elt.cpt.v0':
             self.fail(lp.body[1], 'unexpected capacitor state equations')
+        # the capacitor has become the voltage source V_C of the substituted circuit, whose .i is reported with the
+        # SOURCE flag of current_sign; the flag given here must undo exactly that (obligation ss_dot_convention_independent)
+        res['C_dot_is_source'] = flag
         res['C_var'] = {'var = sscct[name].voc': '1', 'var = -sscct[name].voc': '(fopp 1)'}.get(cb[1])
         if res['L_var'] is None or res['C_var'] is None:
             self.fail(lp.body[1], 'unexpected state variable')
@@ -616,6 +621,8 @@ def emit(tr):
     out.append('Definition ss_L_src : K := %s.\nDefinition ss_L_var : K := %s.\nDefinition ss_C_src : K := %s.\nDefinition ss_C_var : K := %s.\n' % (
         x['L_src'], x['L_var'], x['C_src'], x['C_var']))
     out.append('End Gen.')
+    out.append('(* is_source flag that from_circuit passes to current_sign for the capacitor current i_C / C *)')
+    out.append('Definition ss_C_dot_is_source : bool := %s.' % x['C_dot_is_source'])
     for nm in names + ['nodal_contrib', 'nodal_vsrc', 'mesh_credit_fwd', 'mesh_credit_bwd', 'mesh_term', 'ss_L_src', 'ss_L_var', 'ss_C_src', 'ss_C_var']:
         out.append('Arguments %s {K}.' % nm)
     return '\n'.join(out) + '\n'
